@@ -10,6 +10,7 @@ func emitAll(repo string) {
 	// determinism area (C08, C07): genstate.go, mapsites.go
 	emitGenState(repo)
 	emitMapSites(repo)
+	emitDetInput(repo) // detinput.go: mergeImportKey, tmplTopDecls, enumConstRule
 	// C01: tmpl.go (tmplSyms, tmplHeaders)
 	emitTmpl(repo)
 	// rest area (C06): restfacts.go (restDefaultHeaders, restBodyVerbs)
